@@ -62,6 +62,9 @@ func (r *Response) Merge(requests []protocol.Message, results []interface{}) (
 			return nil, err
 		}
 		brokerResp := m.(*Response)
+		if response.ErrorCode == 0 {
+			response.ErrorCode = brokerResp.ErrorCode
+		}
 		respGroups := []ResponseGroup{}
 
 		for _, brokerResp := range brokerResp.Groups {
